@@ -81,3 +81,44 @@ func zzC01_selftest() {
 	_, err := EncodeUint32(buf, v)
 	symAssert(err == nil, "selftest: must fail (values above 65535 need more than 2 bytes)")
 }
+
+// an option whose header needs both extensions at once - a delta of 13 or more and a value of 13 or more bytes
+// (Proxy-Uri as the first option, any high-numbered option with a longer value): the list encodes and decodes back
+// to the same numbers and bytes. Value lengths this long lie beyond the symbolic-length bounds of the round-trip
+// harnesses, so they are taken from the classes' borders here.
+func zzC01_both_extensions() {
+	id := []OptionID{13, 35, 268, 269, 300, 2000, 65000}[symChoose("number", 7)]
+	n := []int{13, 14, 20, 268, 269, 300}[symChoose("value-length", 6)]
+	val := make([]byte, n)
+	head := symBytes("value-head", 3)
+	copy(val, head)
+	val[n-1] = head[2] ^ 0x55
+	opts := Options{{ID: id, Value: val}}
+	if symChoose("second-option", 2) == 1 {
+		opts = append(opts, Option{ID: id + 14, Value: val[:13]})
+	}
+	buf := make([]byte, 1024)
+	used, err := opts.Marshal(buf)
+	symAssert(err == nil, "the option list is encoded")
+	if err != nil {
+		return
+	}
+	out := make(Options, 0, 4)
+	read, err := out.Unmarshal(buf[:used], map[OptionID]OptionDef{})
+	symCover("both-extensions")
+	symAssert(err == nil && read == used, "what was encoded is decoded completely")
+	symAssert(len(out) == len(opts), "same number of options")
+	if err == nil && len(out) == len(opts) {
+		for i := range opts {
+			same := out[i].ID == opts[i].ID && len(out[i].Value) == len(opts[i].Value)
+			if same {
+				for j := range opts[i].Value {
+					if out[i].Value[j] != opts[i].Value[j] {
+						same = false
+					}
+				}
+			}
+			symAssert(same, "option numbers and values survive the round trip when both header extensions are used")
+		}
+	}
+}
